@@ -17,13 +17,15 @@ from lib.rec import Rec, digest
 from lib.workers import run_shards
 
 LEVEL = "exploration"
-RULE = ("Call alphabet (~170 calls derived from the live configuration): Sid from string / sid= / fields= / query= / path+config (str and "
-        "Path, positional and keyword, config None / local / server), path() / path(c) / path(config=c), unfold_search with every flag "
-        "combination positionally and by keyword (string and Sid argument), match, find / find_one / exists on a fixed list, the local and "
-        "server trees and FindInAll, partially consumed result generators (abandoned or kept alive), Sid.exists / children / get_last, "
-        "create steps on the scratch tree, and a filler call issuing more distinct calls than any cache holds. Random histories of length <= 50 "
-        "(every position judged, so every ordered pair (a before b) seen counts), with cache capacity at its default and reduced to 3, under 8 "
-        "hash seeds. Non-trivial = distinct ordered pair (a, b) of different calls with a executed before b in some judged history.")
+RULE = ('Call alphabet (~170 calls derived from the live configuration): Sid from string / sid= / fields= / query= / path+config (str and Path, '
+        'positional and keyword, config None / local / server), path() / path(c) / path(config=c), unfold_search with every flag combination '
+        'positionally and by keyword (string and Sid argument), match, find / find_one / exists on a fixed list, the local and server trees and '
+        'FindInAll, partially consumed result generators (abandoned or kept alive), Sid.exists / children / get_last, create steps on the '
+        'scratch tree, and a filler call issuing more distinct calls than any cache holds. The alphabet includes FindInAll(<other '
+        'configuration>), flags passed half by position and half by keyword, a list the client appends to; the default tree always holds a few '
+        'entities the other tree lacks. Random histories of length <= 50 (every position judged, so every ordered pair (a before b) seen '
+        'counts), with cache capacity at its default and reduced to 3, under 8 hash seeds. Non-trivial = distinct ordered pair (a, b) of '
+        'different calls with a executed before b in some judged history.')
 ASSUME = ["client code mutating a returned container is not a call of the alphabet",
           "file-system backed finds are compared as sets (directory order is not part of the result); list and unfold results keep their order",
           "after a create, 'fresh' means a fresh child on the same tree state"]
